@@ -326,7 +326,7 @@ class MultiByteValue(Value):
         if "," not in value:
             raise ValueTypeError("multi-byte declarations must have a comma in them")
         values = value.split(",")
-        self.hex_array = [NumericValue(x).hex(size=2) for x in values if x != ""]
+        self.hex_array = [NumericValue(x).hex_in_bytes(1) for x in values if x != ""]
 
     def hex(self, size=0):
         return "".join(self.hex_array)
@@ -349,7 +349,7 @@ class MultiWordValue(Value):
         if "," not in value:
             raise ValueTypeError("multi-word declarations must have a comma in them")
         values = value.split(",")
-        self.hex_array = [NumericValue(x).hex(size=4) for x in values if x != ""]
+        self.hex_array = [NumericValue(x).hex_in_bytes(2) for x in values if x != ""]
 
     def hex(self, size=0):
         return "".join(self.hex_array)
@@ -501,6 +501,17 @@ class NumericValue(Value):
             size += 1 if size % 2 == 1 else 0
         format_specifier = "{{:0>{}X}}".format(size)
         return format_specifier.format(self.get_negative())
+
+    def hex_in_bytes(self, byte_count):
+        """
+        Returns the hex representation of the value in exactly the number of
+        bytes specified, using two's complement for negative values. Raises a
+        ValueTypeError if the value cannot be represented in that many bytes.
+        """
+        number = -self.int if self.negative else self.int
+        if not -(1 << (8 * byte_count - 1)) <= number < (1 << (8 * byte_count)):
+            raise ValueTypeError("[{}] does not fit in {} byte(s)".format(self.original_string, byte_count))
+        return "{{:0>{}X}}".format(2 * byte_count).format(number % (1 << (8 * byte_count)))
 
     def hex_len(self):
         if self.size_hint is not None:
